@@ -377,6 +377,13 @@ func TryReplay(e *Engine, r Result, dir, name, scratch string) (string, bool) {
 	if fn.Pkg == nil || u.entryState == nil {
 		return "", false
 	}
+	// a function that works on the file system is never run on a model input: the model's path strings are arbitrary
+	// (the replay would create or remove whatever they name)
+	for k := range u.Trusted {
+		if strings.Contains(k, "assumed contract: os.") || strings.Contains(k, "assumed contract: (*os.File)") {
+			return "", false
+		}
+	}
 	base, err := os.ReadFile(r.V.Script)
 	if err != nil {
 		return "", false
